@@ -11,6 +11,7 @@ G  every argument vector of up to MaxLen pieces over the catalogue (recognised o
 """
 import json
 import os
+import re
 import shlex
 import shutil
 import tempfile
@@ -101,9 +102,15 @@ def check_chunk(args):
             if ci % 3 == 0:
                 full = [cc] + list(argv) + ["-c", "x.c"]
                 res = []
-                for form in ("arguments", "command"):
+                for form in ("arguments", "command", "command-backslash"):
                     ent = {"directory": d, "file": "x.c"}
-                    ent[form] = full if form == "arguments" else shlex.join(full)
+                    if form == "arguments":
+                        ent["arguments"] = full
+                    elif form == "command":
+                        ent["command"] = shlex.join(full)
+                    else:
+                        # the other POSIX-shell spelling: backslash escapes instead of quotes
+                        ent["command"] = " ".join(re.sub(r"([^A-Za-z0-9_@%+=:,./-])", r"\\\1", a) if a else "''" for a in full)
                     dbp = os.path.join(d, "cc.json")
                     with open(dbp, "w") as f:
                         json.dump([ent], f)
@@ -116,10 +123,10 @@ def check_chunk(args):
                             raise
                         res.append(f"exception:{type(e).__name__}")
                 wantdb = (wantc[0], [os.path.realpath(os.path.join(d, x)) for x in wantc[1]], wantc[2])
-                if res[0] != res[1] or res[0] is None or isinstance(res[0], str) or \
+                if res[0] != res[1] or res[0] != res[2] or res[0] is None or isinstance(res[0], str) or \
                         (list(res[0][0]), list(res[0][1]), list(res[0][2])) != wantdb:
                     fails.append(dict(layer="G", tags=sorted(tg | {"database"}), symptom="database-entry-differs",
-                                      detail=f"{full}: arguments-> {res[0]} command-> {res[1]} reference {wantdb}", case=case))
+                                      detail=f"{full}: arguments-> {res[0]} command-> {res[1]} backslash-escaped command-> {res[2]} reference {wantdb}", case=case))
         return fails, stats
     finally:
         shutil.rmtree(d, ignore_errors=True)
